@@ -42,6 +42,8 @@ DeltasTwo   == {160, Thr + 1}
 StartWrap   == {0, -100}              \* -100 = 0xFFFF_FF9C: the first steps cross the u32 wrap
 StartOne    == {1000}
 StartEdge   == {MaxI - 100, -100}     \* just below 2^31 and just below 2^32
+AlwaysUp    == {TRUE}
+MayFail     == {TRUE, FALSE}
 NoVideo     == {}
 VideoSome   == {96, 101}              \* 96 is rewritten to 97 / 5 by TAv, 101 to 110 by TDtmf and TExact
 
